@@ -24,6 +24,12 @@ theorem arrive_plen : (arrive s i).procs.length = s.procs.length := by
   · rfl
   · split <;> (try split) <;> simp
 
+theorem startBody_plen : (startBody s i).procs.length = s.procs.length := by
+  unfold startBody
+  split
+  · rw [arrive_plen]; simp
+  · split <;> simp
+
 theorem debHead_plen : (debHead s i).procs.length = s.procs.length := by
   unfold debHead; split <;> (try split) <;> simp
 
@@ -125,6 +131,7 @@ theorem stepT_spawns_le_one (s : State) (i : Nat) (t : Thread) : (stepT s i t).p
     · simp
     · rw [watcherLoop_plen]; omega
   · rw [arrive_plen]; omega
+  · rw [startBody_plen]; omega
   · simp
   · simp only
     split
@@ -179,6 +186,7 @@ theorem stepT_spawn_site (s : State) (i : Nat) (t : Thread) (h : s.procs.length 
     · simp at h
     · rw [watcherLoop_plen] at h; omega
   · rw [arrive_plen] at h; omega
+  · rw [startBody_plen] at h; omega
   · simp at h
   · next hb => simp [spawnSite, hb]
   · rw [arrive_plen] at h; simp at h
